@@ -42,10 +42,37 @@ Mods == IF c.defaults THEN ModifierRoots(c.par) ELSE {}
 Sane == Leaf => SubSane(c.par, c.root, c.leaves)
 DefsAgree == (Leaf /\ SubOk(c.par, c.root, c.leaves)) => SubTermSets(c.par, c.root, c.leaves) = SubTermSetsDef(c.par, c.root, c.leaves)
 
+(* A sub-ontology is an ontology: the call chained on its own result (same root; the same leaves, and the smallest leaf alone).  *)
+(* The source of the second call is the result of the first: induced links, kept records restricted to the retained terms, and  *)
+(* NO modifier roots (the result is built without the documented defaults).                                                     *)
+NestLeaves == <<c.leaves, {CHOOSE x \in c.leaves : \A y \in c.leaves : x <= y}>>
+NestPar(T) == SubPar(c.par, T)
+Nested(T) ==
+  LET p1 == NestPar(T)
+      g1 == SubRecs(c.par, Mods, Genes, T)
+      o1 == SubRecs(c.par, Mods, Omims, T)
+      r1 == SubRecs(c.par, Mods, Orphas, T)
+  IN [j \in 1..2 |->
+        LET Ts2 == SetToSeq(SubTermSets(p1, c.root, NestLeaves[j])) IN
+        [leaves |-> Sorted(NestLeaves[j]),
+         allowed |-> [i \in 1..Len(Ts2) |-> [terms |-> Sorted(Ts2[i]), proj |-> SubProj(p1, {}, g1, o1, r1, Ts2[i])]]]]
+
+(* the chained call is never refused, keeps a subset of the first result and again satisfies everything the caller relies on *)
+NestedSane ==
+  (Leaf /\ SubOk(c.par, c.root, c.leaves)) =>
+    \A T \in SubTermSets(c.par, c.root, c.leaves) : \A j \in 1..2 :
+      /\ SubOk(NestPar(T), c.root, NestLeaves[j])
+      /\ SubSane(NestPar(T), c.root, NestLeaves[j])
+      /\ \A T2 \in SubTermSets(NestPar(T), c.root, NestLeaves[j]) :
+            /\ T2 \subseteq T
+            /\ \A lf \in NestLeaves[j] : DistUp(SubPar(NestPar(T), T2), lf, c.root) = DistUp(c.par, lf, c.root)
+      \* with the same leaves the first result is itself one of the allowed second results
+      /\ T \in SubTermSets(NestPar(T), c.root, c.leaves)
+
 Result ==
   IF ~SubOk(c.par, c.root, c.leaves) THEN [ok |-> FALSE, allowed |-> <<>>]
   ELSE LET Ts == SetToSeq(SubTermSets(c.par, c.root, c.leaves)) IN
-       [ok |-> TRUE, allowed |-> [i \in 1..Len(Ts) |-> [terms |-> Sorted(Ts[i]), proj |-> SubProj(c.par, Mods, Genes, Omims, Orphas, Ts[i])]]]
+       [ok |-> TRUE, allowed |-> [i \in 1..Len(Ts) |-> [terms |-> Sorted(Ts[i]), proj |-> SubProj(c.par, Mods, Genes, Omims, Orphas, Ts[i]), nested |-> Nested(Ts[i])]]]
 
 EdgeSeq == SetToSeq({<<p, t>> \in U \X U : p \in c.par[t]})
 RecSeq(r) == LET ids == Sorted(DOMAIN r) IN [i \in 1..Len(ids) |-> [id |-> ids[i], hpos |-> Sorted(r[ids[i]].hpos)]]
